@@ -632,6 +632,48 @@ func (c *ctxT) whist(failAt int, ops []string) {
 	}
 }
 
+// deadlineStorm: Serve handles a stream of stanzas while another goroutine keeps moving the
+// close deadline (an hour ahead): nothing orders the two, so unsynchronised access to the input
+// context shows up in the race detector.  Serve must handle everything and end with nil.
+func (c *ctxT) deadlineStorm() {
+	r := c.r
+	r.Mark("case deadline-storm")
+	t, err := newSess()
+	if err != nil {
+		return
+	}
+	defer t.close()
+	t.startServe()
+	const n = 150
+	go func() {
+		for i := 0; i < n; i++ {
+			<-t.handled
+		}
+	}()
+	var wg sync.WaitGroup
+	wg.Add(1)
+	go func() {
+		defer wg.Done()
+		for i := 0; i < n; i++ {
+			t.feedWithin(fmt.Sprintf("<message id='s%d' type='chat'/> ", i), 5*time.Second)
+		}
+		t.feedWithin(closeTag, 5*time.Second)
+	}()
+	for i := 0; i < n; i++ {
+		t.s.SetCloseDeadline(time.Now().Add(time.Hour))
+	}
+	wg.Wait()
+	lines := []string{"#scenario=deadline-storm"}
+	if !t.waitServe(10 * time.Second) {
+		r.Fail("serve-returns", "deadline-storm", lines, "Serve did not return after the peer closed the stream")
+		return
+	}
+	if got := classifyRet(t.ret); got != "nil" {
+		r.Fail("deadline-last-wins", "deadline-storm", lines, "every deadline set was an hour away, Serve returned "+got)
+	}
+	r.Case("deadline-storm", true, "deadline-storm")
+}
+
 func clip(b []byte) string {
 	if len(b) > 300 {
 		return string(b[:300]) + "…"
@@ -694,6 +736,9 @@ func Run(r *common.Run) error {
 		// race-detector run: the concurrent scenarios only, and histories in which
 		// SetCloseDeadline and Close run while Serve is active
 		c.schedules(true)
+		for i := 0; i < 5; i++ {
+			c.deadlineStorm()
+		}
 		for _, h := range [][]string{{"d"}, {"m", "df", "m", "dp"}, {"df", "c", "p"}, {"y", "dz", "y"}, {"m", "d"}, {"c", "dp"}} {
 			for i := 0; i < 10; i++ {
 				c.hist(true, h, "race")
